@@ -1,0 +1,21 @@
+//! Verification hooks (compiled only with `--cfg anydb_verif`): run-time values for two tuning
+//! constants so that a test harness can make the batched-write and file-IO paths reachable with small data.
+use std::sync::atomic::{AtomicUsize, Ordering};
+
+static MAX_CACHE_SIZE: AtomicUsize = AtomicUsize::new(1024 * 1024 * 1024);
+static MMAP_CROSSOVER_BYTES: AtomicUsize = AtomicUsize::new(1024 * 1024 * 1024);
+
+/// Value used in place of `MAX_CACHE_SIZE` (bytes buffered before a compute batch is written).
+pub fn max_cache_size() -> usize {
+    MAX_CACHE_SIZE.load(Ordering::Relaxed)
+}
+pub fn set_max_cache_size(v: usize) {
+    MAX_CACHE_SIZE.store(v, Ordering::Relaxed)
+}
+/// Value used in place of `MMAP_CROSSOVER_BYTES` (range size above which scans use buffered file IO).
+pub fn mmap_crossover_bytes() -> usize {
+    MMAP_CROSSOVER_BYTES.load(Ordering::Relaxed)
+}
+pub fn set_mmap_crossover_bytes(v: usize) {
+    MMAP_CROSSOVER_BYTES.store(v, Ordering::Relaxed)
+}
